@@ -285,10 +285,12 @@ def wire_stage(prop, tier, seed, replay):
         cid = 0
         for d in g.types:
             t = d.ref()
-            for k in range(per_type):
+            for k in range(-1, per_type):
                 try:
-                    v = wire.gen_value(c, t)
+                    v = wire.gen_minimal(c, t) if k < 0 else wire.gen_value(c, t)
                 except wire.NoValue:
+                    if k < 0:
+                        continue
                     break
                 docs = [("canonical", wire.render(c, v, t, wire.Style(serialize_empty=cfg["serialize_empty"])), None)]
                 docs.append(("non-canonical", wire.render(c, v, t, wire.Style(r, True)), None))
@@ -479,6 +481,15 @@ def judge_wire(prop, rep, distinct, c, g, cs, cfg, d, v, cls, doc, out):
     for side_name, side in (("client", client), ("server", server)):
         if "ok" in side:
             return fail("accepted-invalid-document:%s:%s" % (side_name, cls))
+    # ... and also when the document is first parsed into the dynamic `any` value and viewed as the type from there
+    # (judged for the structural faults the generated code itself decides; leaf coercions through `any` are C13's business and
+    # are only counted: e.g. a string that is not Base64 is taken as raw bytes there)
+    if (out.get("extra") or {}).get("via_any") == "ok":
+        structural = cls.startswith("union-") or cls in ("missing-required-field", "null-required-field", "wrong-json-kind/object", "wrong-json-kind/union",
+                                                         "wrong-json-kind/collection", "wrong-json-kind/map")
+        if structural:
+            return fail("accepted-invalid-document:via-any:%s" % cls)
+        rep["observed_only"]["via-any-accepts-what-direct-parsing-rejects:" + cls.split("/")[0]] = rep["observed_only"].get("via-any-accepts-what-direct-parsing-rejects:" + cls.split("/")[0], 0) + 1
 
 
 def value_has_unknown_variant(v):
@@ -1029,6 +1040,34 @@ def force_optional_headers(g, ir):
             e["args"].append(irb.arg("verifOptHeader", t, "header", "Verif-Opt"))
 
 
+def force_return_types(g, ir):
+    """Service labs: endpoints (no arguments) whose return types are the shapes the client / server decode selection looks
+    through: aliases of optional<binary>, of binary, of optionals and collections, and external types with optional / set /
+    map / list fallbacks. The aliases are added to the definition."""
+    import ir as irb
+    from gen import TDef
+    if not ir["services"] or "VerifMaybeBlob" in g.by_name:
+        return
+    pkg = g.p.packages[0]
+    S, B = irb.prim("STRING"), irb.prim("BINARY")
+    new_aliases = [("VerifMaybeBlob", irb.opt(B)), ("VerifBlob", B), ("VerifMaybeText", irb.opt(S)), ("VerifNames", irb.lst(S)), ("VerifNameSet", irb.set_(S)), ("VerifCounts", irb.map_(S, irb.prim("INTEGER")))]
+    for name, t in new_aliases:
+        d = TDef("alias", name, pkg)
+        d.alias = t
+        g.types.append(d)
+        g.by_name[name] = d
+        ir["types"].append(d.to_ir())
+    ext = lambda n, fb: irb.external(n, "java.ext", fb)
+    rets = [("verifRetMaybeBlob", irb.ref("VerifMaybeBlob", pkg)), ("verifRetOptBlobAlias", irb.opt(irb.ref("VerifBlob", pkg))), ("verifRetBlobAlias", irb.ref("VerifBlob", pkg)),
+            ("verifRetMaybeText", irb.ref("VerifMaybeText", pkg)), ("verifRetNames", irb.ref("VerifNames", pkg)), ("verifRetNameSet", irb.ref("VerifNameSet", pkg)),
+            ("verifRetCounts", irb.ref("VerifCounts", pkg)), ("verifRetExtOpt", ext("VerifExtOpt", irb.opt(S))), ("verifRetExtSet", ext("VerifExtSet", irb.set_(S))),
+            ("verifRetExtMap", ext("VerifExtMap", irb.map_(S, S))), ("verifRetExtList", ext("VerifExtList", irb.lst(S))), ("verifRetText", S), ("verifRetFlag", irb.prim("BOOLEAN")),
+            ("verifRetCount", irb.prim("INTEGER"))]
+    s0 = ir["services"][0]
+    for k, (name, t) in enumerate(rets):
+        s0["endpoints"].append(irb.endpoint(name, "GET", "/verif-ret/r%d" % k, [], returns=t))
+
+
 def force_map_bodies(g, ir):
     """C09 labs: body arguments whose type is a map with a primitive key and safe values (an enum of the definition),
     directly, keyed by bearer tokens, and nested in a list: not safe, whatever the values are."""
@@ -1064,6 +1103,7 @@ def services_stage(prop, tier, seed, replay):
         g = LabGen(cs, Profile(n_types=25, services=3, errors=0, hostile_names=True, body_bias=(prop == "C09")))
         ir = g.ir()
         force_optional_headers(g, ir)
+        force_return_types(g, ir)
         if prop == "C09":
             force_map_bodies(g, ir)
         labs.append((cs, cfg, g, ir))
@@ -1754,6 +1794,7 @@ def responses_stage(prop, tier, seed, replay):
         cfg = {"exhaustive": i % 2 == 1, "serialize_empty": rr.random() < 0.5, "strip": rr.choice([None, "com.verif", "com.verif.lab"])}
         g = LabGen(cs, Profile(n_types=25, services=3, errors=0, hostile_names=True))
         ir = g.ir()
+        force_return_types(g, ir)
         labs.append((cs, cfg, g, ir))
         specs.append({"name": "resp%d" % i, "ir": ir, "cfg": cfg, "drive": True, "driver": lab.driver_source(ir, cfg, registry=False, services=True)})
     res = lab.build_labs("resp-%s" % tier, specs)
@@ -1844,6 +1885,9 @@ def responses_stage(prop, tier, seed, replay):
                         text, bcls, valid = body_case(wire, c, r, rv, rt_, DEFAULT_LIMIT)
                         if bcls == "fault/unknown-member":
                             valid = True           # clients tolerate unknown object fields
+                        if rclass in ("list", "set", "map") and r.random() < 0.1:
+                            # `null` is not a document of a collection type (only a 204 stands for the empty collection)
+                            text, bcls, valid = r.choice(["null", " null ", "null\n"]), "null-for-collection", False
                         data = b"\xff\xfe" if text == "\xff\xfe" else text.encode("utf-8")
                         wanted = rv
                     fail_at = r.choice([0, 0, 1, 2, 3, 50]) if r.random() < 0.12 else None
